@@ -1928,3 +1928,4 @@ M("c10-query-never-raises", "C10", "R6.read-only-query-asks-what-the-guard-asks"
   "                error_msg = \"Parent context completed, child operation cannot continue\"")
 M("c17-completed-contexts-not-counted", "C17", "R6.boundary-on-small-histories", "state.py",
   "                    if op.operation_type != OperationType.EXECUTION", "                    if op.operation_type != OperationType.CONTEXT")
+M("c05-stop-drain-loop-doubly-negated", "C05", "R6.stop-releases-queued-waiters", "state.py", "                while not pending.empty():", "                while (not (not pending.empty())):")
